@@ -431,6 +431,7 @@ func mustPassNoCond(f *ssa.Function, blk *ssa.BasicBlock) bool {
 func (c *Ctx) fieldConsts(f *ssa.Function, field string) map[string]bool {
 	out := map[string]bool{}
 	for _, bf := range branchFacts(f) {
+		curEnv = bf.A.Env
 		if bf.A.Kind != "const" || bf.A.C.Value == nil || bf.A.C.Value.Kind() != constant.String {
 			continue
 		}
@@ -544,6 +545,7 @@ func ruleVD7(c *Ctx) {
 		// conditions on the path: collect atoms of dominating branch edges
 		allowed := true
 		for _, bf := range branchFacts(sp) {
+			curEnv = bf.A.Env
 			if !(bf.E.To() == r.Blk || bf.E.To().Dominates(r.Blk)) || len(bf.E.To().Preds) != 1 {
 				continue
 			}
@@ -642,6 +644,7 @@ func ruleVD7(c *Ctx) {
 			}
 			cond := false
 			for _, bf := range branchFacts(bte) {
+				curEnv = bf.A.Env
 				if (bf.E.To() == em.Call.Block() || bf.E.To().Dominates(em.Call.Block())) && inCycle(bf.E.From) {
 					if bf.A.Kind == "cmp" {
 						continue // loop bound
